@@ -338,6 +338,13 @@ def _key(pe, x):
         return str(x)
     r = _as_exact(x)
     if r is None:
+        rep = pe.order_rep() if getattr(pe, "order_rep", None) else None
+        if rep and isinstance(x, Node) and dag.symbols(x) <= set(rep):
+            # ordered by the representative values of the regime under evaluation (the check runs every regime)
+            try:
+                return dag.eval_fraction(x, rep)
+            except Exception:
+                pass
         raise Undecidable(f"ordering of symbolic value {dag.short(x)}")
     return r
 
@@ -771,8 +778,32 @@ def _close(pe, x, y, rtol, atol):
     if xe is None or ye is None:
         if isinstance(x, Node) and isinstance(y, Node) and x is y:
             return True
+        r = _close_numeric(x, y, rtol, atol)
+        if r is not None:
+            return r
         raise Undecidable(f"isclose on symbolic values {dag.short(x)} ~ {dag.short(y)}")
     return abs(Fraction(xe) - Fraction(ye)) <= atol + rtol * abs(Fraction(ye))
+
+
+def _close_numeric(x, y, rtol, atol):
+    """Closed-form constants (roots, logarithms of rationals): decided with 50-digit arithmetic when the margin is clear."""
+    try:
+        xn, yn = dag.tonode(x), dag.tonode(y)
+        if {s_ for s_ in dag.symbols(xn) | dag.symbols(yn)} - {"I", "pi"}:
+            return None
+        from . import numeval
+
+        unint = set()
+        xv, yv = numeval.evaluate(xn, {}, uninterpreted=unint), numeval.evaluate(yn, {}, uninterpreted=unint)
+        if unint:
+            return None
+        lhs = abs(xv - yv)
+        rhs = numeval.mp.mpf(atol.numerator) / atol.denominator + (numeval.mp.mpf(rtol.numerator) / rtol.denominator) * abs(yv)
+        if abs(lhs - rhs) <= numeval.mp.mpf(10) ** -30 * (abs(lhs) + abs(rhs) + 1):
+            return None
+        return bool(lhs <= rhs)
+    except (KeyError, ValueError, TypeError, ZeroDivisionError):
+        return None
 
 
 def _tol(pe, a, k, i, name, default):
